@@ -605,3 +605,13 @@ func componentOf(n *sx) string {
 	}
 	return ""
 }
+
+func init() {
+	core.Register(&core.Rule{
+		Name: "R-SPECIAL",
+		Clause: "C19 'including the empty and full cases' for caps: the radius of a Cap may be the special negative chord angle of the empty cap, and ChordAngle.Add/Sub are only defined for " +
+			"non-special operands; every Cap method that feeds a cap's radius into Add/Sub does so only on paths where that cap was tested non-empty (IsEmpty() false, or radius compared against 0).",
+		Min: 6,
+		Run: runSpecial,
+	})
+}
